@@ -171,6 +171,14 @@ func failingStatements(w *world, maxM int) []failStmt {
 // c14Seeds: name -> builder. t4 variants put the long row at position k.
 func c14Seed(w *world, name string) *world {
 	switch {
+	case name == "t1x8-row-ids-used-up":
+		// eight rows, flushed; then the row id counter is put at the top of its range (what four billion rows do):
+		// only the valid single-row INSERT runs here - an engine that refuses it must leave nothing behind
+		ok := w.do(mkCreate("t1", worldSchemas["t1"])) && w.do(mkInsert(w.model, "t1", 8, false)) && w.tick()
+		if ok {
+			storage.VerifSetLastKey(w.sess.RelationService, 1<<32-1)
+		}
+		return okw(w, ok)
 	case name == "t1x8-maxrow-upper":
 		// eight rows in one leaf, the sixth of them exactly at the 400-byte limit: the next row splits the leaf and
 		// the split has to move the big row
@@ -258,7 +266,7 @@ func c14Seed(w *world, name string) *world {
 
 func runC14(env *lib.Env, rep *lib.Report) {
 	maxM := 3
-	seeds := []string{"t1-empty", "t1x8", "t1x8-upper-deleted", "interleaved", "t4k1", "t4k2", "t4k3", "t5-null-later", "small:t1x40", "t1x8-maxrow-upper", "t1x12+refused+t2+restart"}
+	seeds := []string{"t1-empty", "t1x8", "t1x8-upper-deleted", "interleaved", "t4k1", "t4k2", "t4k3", "t5-null-later", "small:t1x40", "t1x8-maxrow-upper", "t1x12+refused+t2+restart", "t1x8-row-ids-used-up"}
 	if env.Thorough() {
 		maxM = 6
 		seeds = append(seeds, "t1x30", "t1x8+t2t3-crashed", "t1x12+t2x1")
@@ -307,6 +315,15 @@ func runC14(env *lib.Env, rep *lib.Report) {
 		}
 		before := w.fullDump()
 		fs := failingStatements(w, maxM)
+		if seed == "t1x8-row-ids-used-up" {
+			var only []failStmt
+			for _, f := range fs {
+				if f.Class == "valid/insert" {
+					only = append(only, f)
+				}
+			}
+			fs = only
+		}
 		if strings.HasPrefix(seed, "deep:") {
 			var valid []failStmt
 			for _, f := range fs {
@@ -390,6 +407,9 @@ func runC14(env *lib.Env, rep *lib.Report) {
 		if after != before {
 			c.Fail("failed-statement-changed-state", "the failing statement (%s, first failing row %d of %d) left a trace:\n before: %s\n after:  %s", f.Class, f.K, f.M, before, after)
 			return
+		}
+		if seed == "t1x8-row-ids-used-up" {
+			return // (what the next row id would be is not this property's question)
 		}
 		// and the database keeps behaving as before the failure
 		if !w.do(mkInsert(w.model, "t1", 1, false)) {
